@@ -65,6 +65,10 @@ def generate(rng, tier):
               "body": body}
         if nested:
             op["nested"] = nested
+        if rng.random() < 0.15:
+            # `c = supply.claim(...)` / `b = supply.borrow(...)` made now, entered later
+            op["defer"] = []
+            _gap(rng, op["defer"], 1.0)
         if depth < 2 and rng.random() < 0.3 and any(amounts.values()):
             share = "S" + ident
             op["share"] = share
@@ -91,6 +95,41 @@ def generate(rng, tier):
             ops.append(borrow_op(caps, 0))
             _gap(rng, ops, 0.4)
         actors.append({"name": "u%d" % i, "ops": ops})
+    if rng.random() < 0.15:
+        # one context object (`lease = supply.borrow(...)`) entered by several blocks: by two
+        # activities at overlapping times, or nested in one activity
+        amounts = {key: rng.randint(1, max(1, value // 2)) for key, value in caps.items()}
+        serial[0] += 1
+        group = "lease%d" % serial[0]
+
+        def lease_op(body):
+            serial[0] += 1
+            return {"op": "borrow", "on": "R", "id": "b%d" % serial[0], "amounts": dict(amounts),
+                    "mode": "borrow", "ctx": group, "body": body}
+        if rng.random() < 0.5:
+            body = []
+            _gap(rng, body, 0.7)
+            inner = lease_op(body)
+            outer_body = []
+            _gap(rng, outer_body, 0.5)
+            outer_body.append(inner)
+            _gap(rng, outer_body, 0.5)
+            ops = []
+            _gap(rng, ops, 0.5)
+            ops.append(lease_op(outer_body))
+            actors.append({"name": "u%d" % len(actors), "ops": ops})
+        else:
+            for _ in range(rng.randint(2, 3)):
+                ops, body = [], []
+                _gap(rng, ops, 0.6)
+                _gap(rng, body, 0.8)
+                ops.append(lease_op(body))
+                if rng.random() < 0.3:
+                    _gap(rng, ops, 0.8)
+                    body = []
+                    _gap(rng, body, 0.8)
+                    ops.append(lease_op(body))
+                actors.append({"name": "u%d" % len(actors), "ops": ops})
     if kind == "resources" and rng.random() < 0.7:
         ops = []
         for _ in range(rng.randint(1, 4)):
@@ -198,6 +237,11 @@ class Monitor:
                     self.blocks.pop(ident, None)
                 elif what == "unavailable":
                     block = self.blocks.pop(ident, None)
+                    if block is None:
+                        self.bad.append(("claim-refused-before-entry",
+                                         "%s: claim %s of %r raised ResourcesUnavailable before "
+                                         "the block was entered (when the claim was made)"
+                                         % (ev[3], ident, amounts)))
                     if block and _fits(amounts, block["levels"]):
                         self.bad.append(("claim-refused-available",
                                          "%s: claim %s of %r refused with %r available"
